@@ -10,11 +10,15 @@ import (
 	"gverif/engine/constx"
 	"gverif/engine/decode"
 	"gverif/engine/dspx"
+	"gverif/engine/factx"
+	"gverif/engine/flagx"
 	"gverif/engine/goproto"
 	"gverif/engine/graphinv"
+	"gverif/engine/initx"
 	"gverif/engine/loopidx"
 	"gverif/engine/matargs"
 	"gverif/engine/modset"
+	"gverif/engine/nilrecv"
 	"gverif/engine/okflow"
 	"gverif/engine/overlap"
 	"gverif/engine/paramuse"
@@ -41,20 +45,20 @@ var canaries = map[string][]canary{}
 // propertyCanaries lists, per property, the rules whose canaries are run
 // after the property's own analysis.
 var propertyCanaries = map[string][]string{
-	"C01": {"STRIDE.index", "STRIDE.len", "STRIDE.start", "STRIDE.rowoffset", "TWIN.generated", "ASM.units"},
-	"C02": {"ARGS.order", "ARGS.lencheck", "ARGS.query", "LOOPIDX.unused", "OKFLOW.report"},
-	"C03": {"ARGS.order", "ARGS.lencheck", "ARGS.query", "LOOPIDX.unused", "OKFLOW.report"},
-	"C04": {"STRIDE.contig", "TWIN.bounds"},
+	"C01": {"STRIDE.index", "STRIDE.len", "STRIDE.start", "STRIDE.rowoffset", "STRIDE.extent", "FLAG.trans", "TWIN.generated", "ASM.units"},
+	"C02": {"ARGS.order", "ARGS.lencheck", "ARGS.query", "LOOPIDX.unused", "OKFLOW.report", "STRIDE.vecinc"},
+	"C03": {"ARGS.order", "ARGS.lencheck", "ARGS.query", "LOOPIDX.unused", "OKFLOW.report", "STRIDE.workld", "STRIDE.worknext"},
+	"C04": {"STRIDE.contig", "TWIN.bounds", "NILRECV"},
 	"C05": {"OVERLAP.guard", "MODSET.mat"},
-	"C06": {"OKFLOW.use", "OKFLOW.cond", "OKFLOW.report"},
-	"C07": {"ARGS.order", "ARGS.lencheck", "ARGS.query", "MAT.order", "ASM.window", "STRIDE.len"},
-	"C08": {"PARAMUSE.read", "ASM.window", "ASM.units"},
+	"C06": {"OKFLOW.use", "OKFLOW.cond", "OKFLOW.report", "FACT.normorder", "FACT.state", "NILRECV"},
+	"C07": {"ARGS.order", "ARGS.lencheck", "ARGS.query", "MAT.order", "ASM.window", "ASM.tail", "STRIDE.len"},
+	"C08": {"PARAMUSE.read", "ASM.window", "ASM.tail", "ASM.units", "STRIDE.extent"},
 	"C09": {"GOPROTO.capture", "GOPROTO.lockpair", "GOPROTO.sibling", "POOL.uaf"},
-	"C12": {"GRAPHINV.converse", "GRAPHINV.uid", "GRAPHINV.iter"},
-	"C16": {"DECODE.mul", "DECODE.selfcmp", "DECODE.clone"},
+	"C12": {"GRAPHINV.converse", "GRAPHINV.uid", "GRAPHINV.iter", "TWIN.sibstate"},
+	"C16": {"DECODE.mul", "DECODE.selfcmp", "DECODE.clone", "DECODE.fields"},
 	"C17": {"RESET.fields", "WINDOW.pointwise"},
 	"C18": {"CONST.stencil", "GOPROTO.sibling"},
-	"C19": {"GOPROTO.run"},
+	"C19": {"GOPROTO.run", "INIT.state"},
 }
 
 func init() {
@@ -68,6 +72,14 @@ func init() {
 		{"STRIDE.rowoffset", "blas/gonum/level2float64.go", "x[i] *= a[i*lda+i]", "x[i] *= a[i*n+i]", blas},
 		{"STRIDE.pair", "lapack/gonum/dgeqrf.go", "impl.Dgeqr2(m-i, n-i, a[i*lda+i:], lda, tau[i:], work)", "impl.Dgeqr2(m-i, n-i, a[i*lda+i:], ldwork0, tau[i:], work)", nil},
 		{"STRIDE.walk", "lapack/gonum/dlarfb.go", "work[i*ldwork+j]", "work[i*ldwork+j]", nil},
+		{"STRIDE.vecinc", "lapack/gonum/dlarfg.go", "bi.Dscal(n-1, rsafmn, x, incX)", "bi.Dscal(n-1, rsafmn, x, 1)", lap},
+		{"STRIDE.extent", "blas/gonum/level2float64.go", "kx = -(lenX - 1) * incX", "kx = -(lenY - 1) * incX", blas},
+		{"STRIDE.workld", "lapack/gonum/dgesvd.go", "work[iu:], ldworku, a, lda, 0, vt, ldvt)", "work[iu:], m, a, lda, 0, vt, ldvt)", lap},
+		{"STRIDE.worknext", "lapack/gonum/dgesvd.go", "itau := iu + ldworku*n", "itau := iu + n*n", lap},
+		{"FLAG.trans", "blas/blas64/blas64.go", "if tA == blas.NoTrans {\n\t\tm, k = a.Rows, a.Cols\n\t} else {\n\t\tm, k = a.Cols, a.Rows\n\t}", "if tA != blas.Trans {\n\t\tm, k = a.Rows, a.Cols\n\t} else {\n\t\tm, k = a.Cols, a.Rows\n\t}", func() *core.Result { return flagx.Run(def, core.Pkgs("./blas/blas64")) }},
+		{"FACT.normorder", "mat/lu.go", "anorm := lapack64.Lange(norm, lu.lu.mat, work)\n\tputFloat64s(work)\n\tlu.ok = lapack64.Getrf(lu.lu.mat, lu.swaps)", "lu.ok = lapack64.Getrf(lu.lu.mat, lu.swaps)\n\tanorm := lapack64.Lange(norm, lu.lu.mat, work)\n\tputFloat64s(work)", func() *core.Result { return factx.Run(def) }},
+		{"FACT.state", "mat/cholesky.go", "c.chol.Copy(chol.chol)\n\tc.cond = chol.cond", "c.chol.Copy(chol.chol)\n\t_ = chol.cond", func() *core.Result { return factx.Run(def) }},
+		{"NILRECV", "mat/cholesky.go", "var tmp VecDense\n\t\ttmp.CloneFromVec(x)", "var tmp *VecDense\n\t\ttmp.CopyVec(x)", func() *core.Result { return nilrecv.Run(def, core.Pkgs("./mat")) }},
 		{"STRIDE.contig", "mat/cholesky.go", "xmat = rv.RawVector()", "xmat = rv.RawVector(); copy(work, rv.RawVector().Data)", matS},
 		{"ARGS.order", "lapack/gonum/dgetrf.go", "mn := min(m, n)", "mn := min(m, n); ipiv[0] = 0", func() *core.Result { return args.Run(def, core.Pkgs("./lapack/gonum"), lapackArgs) }},
 		{"ARGS.lencheck", "lapack/gonum/dgetf2.go", "case len(a) < (m-1)*lda+n:\n\t\tpanic(shortA)", "case lda < 0:\n\t\tpanic(shortA)", func() *core.Result { return args.Run(def, core.Pkgs("./lapack/gonum"), lapackArgs) }},
@@ -84,19 +96,23 @@ func init() {
 		{"GOPROTO.capture", "integrate/quad/quad.go", "mux.Lock()\n\t\t\tintegral += subIntegral\n\t\t\tmux.Unlock()", "mux.Lock()\n\t\t\tmux.Unlock()\n\t\t\tintegral += subIntegral", func() *core.Result { return goproto.Run(def, core.Pkgs("./integrate/quad")) }},
 		{"GOPROTO.lockpair", "diff/fd/jacobian.go", "mu[job.j].Lock()\n", "if n > 2 {\n\t\t\t\tmu[job.j].Lock()\n\t\t\t}\n", func() *core.Result { return goproto.RunLocks(def, core.Pkgs("./diff/fd")) }},
 		{"GOPROTO.run", "optimize/guessandcheck.go", "\tclose(operation)\n}", "}", func() *core.Result { return goproto.RunProtocol(def) }},
+		{"INIT.state", "optimize/listsearch.go", "\tl.bestF = math.Inf(1)\n\tl.bestIdx = -1", "\tif l.rows != r {\n\t\tl.bestF = math.Inf(1)\n\t}\n\tl.bestIdx = -1", func() *core.Result { return initx.Run(def, "./optimize") }},
 		{"GOPROTO.sibling", "diff/fd/laplacian.go", "if hasOrigin && !originKnown {", "if hasOrigin {", func() *core.Result { return goproto.Run(def, core.Pkgs("./diff/fd")) }},
 		{"GRAPHINV.converse", "graph/simple/directed.go", "delete(g.to[tid], fid)", "delete(g.to[fid], tid)", func() *core.Result { return graphinv.Run(def) }},
 		{"GRAPHINV.uid", "graph/set/uid/uid.go", "\ts.free.Remove(id)\n", "\tif id <= s.maxID {\n\t\ts.free.Remove(id)\n\t}\n", func() *core.Result { return graphinv.Run(def) }},
 		{"GRAPHINV.iter", "graph/iterator/nodes_map.go", "n.pos++", "_ = n.pos", func() *core.Result { return graphinv.RunIterators(def) }},
 		{"DECODE.mul", "mat/io.go", "if cols != 0 && rows > maxLen/cols {\n\t\treturn errTooBig\n\t}\n\tsize := rows * cols\n\tif size == 0 {\n\t\treturn ErrZeroLength", "size := rows * cols\n\tif size == 0 {\n\t\treturn ErrZeroLength", func() *core.Result { return decode.Run(def, "./mat") }},
 		{"DECODE.selfcmp", "stat/card/hll32.go", "ta := reflect.TypeOf(a.hash)", "ta := reflect.TypeOf(b.hash)", func() *core.Result { return decode.Run(def, "./stat/card") }},
+		{"DECODE.fields", "stat/card/hll32.go", "err = dec.Decode(&h.p)\n\tif err != nil {", "var p0 uint8\n\terr = dec.Decode(&p0)\n\tif err != nil {", func() *core.Result { return decode.RunFields(def, "./stat/card") }},
 		{"DECODE.clone", "graph/formats/rdf/urna.go", "ordered: make([]string, len(i.ordered)),", "ordered: i.ordered,", func() *core.Result { return decode.RunClone(def, "./graph/formats/rdf") }},
 		{"RESET.fields", "dsp/fourier/fourier.go", "\tfftpack.Rffti(n, t.work, t.ifac[:])", "\tfftpack.Rffti(n, t.work, make([]int, 15))", func() *core.Result { return dspx.RunReset(def) }},
 		{"WINDOW.pointwise", "dsp/window/window_parametric.go", "v = seq[len(seq)-1-i]\n", "", func() *core.Result { return dspx.RunWindow(def) }},
 		{"CONST.stencil", "diff/fd/diff.go", "Stencil:    []Point{{Loc: -1, Coeff: 1}, {Loc: 0, Coeff: -2}, {Loc: 1, Coeff: 1}},", "Stencil:    []Point{{Loc: -1, Coeff: 1}, {Loc: 0, Coeff: -2}, {Loc: 1, Coeff: 2}},", func() *core.Result { return constx.Run(def) }},
 		{"TWIN.generated", "blas/gonum/level2float32.go", "kx = -(lenX - 1) * incX", "kx = -(lenX - 2) * incX", func() *core.Result { return twin.Run(twin.Which{Generated: true, Prefixes: []string{"blas/"}}) }},
+		{"TWIN.sibstate", "graph/iterator/lines.go", "func (e *OrderedWeightedLines) Reset() {\n\te.idx = -1", "func (e *OrderedWeightedLines) Reset() {\n\te.idx = 0", func() *core.Result { return twin.Run(twin.Which{SiblingState: []string{"graph/iterator"}}) }},
 		{"TWIN.bounds", "mat/index_bound_checks.go", "if pj < 0 || b.mat.KL+b.mat.KU+1 <= pj {\n\t\treturn 0", "if pj < 0 || b.mat.Stride <= pj {\n\t\treturn 0", func() *core.Result { return twin.Run(twin.Which{Bounds: true, BoundsFamilies: []string{"mat-index"}}) }},
 		{"ASM.window", "internal/asm/f64/dot_amd64.s", "\tMOVSD 0(R9)(SI*8), X1\n\tMULSD X1, X0", "\tMOVUPD 0(R9)(SI*8), X1\n\tMULSD X1, X0", func() *core.Result { return asmx.Run() }},
+		{"ASM.tail", "internal/asm/f64/axpyunitary_amd64.s", "tail_one:\n\tMOVSD (X_PTR)(IDX*8), X2", "tail_one:\n\tMOVUPS (X_PTR)(IDX*8), X2", func() *core.Result { return asmx.Run() }},
 		{"ASM.units", "internal/asm/f64/ger_amd64.s", "LEAQ    (X_PTR)(TMP2*1), X_PTR", "LEAQ    (X_PTR)(TMP2*SIZE), X_PTR", func() *core.Result { return asmx.Run() }},
 	}
 	_ = lap
